@@ -5,7 +5,7 @@ import shutil
 import sqlite3
 import tempfile
 
-from vfw import dataset
+from vfw import dataset, ambient
 
 
 class Workflow:
@@ -15,7 +15,7 @@ class Workflow:
     def __init__(self, case):
         self.case = case
         self.directory = tempfile.mkdtemp(
-            prefix='vfw-', dir=dataset.scratch_root())
+            prefix=ambient.scratch_prefix(), dir=dataset.scratch_root())
         self.db = os.path.join(self.directory, 'data.sqlite3')
 
     def __enter__(self):
